@@ -7,11 +7,15 @@ TRUST = [
 ]
 
 
-def simple(run, shards_thorough=16, variant="default", shards_quick=1, **kw):
+def simple(run, shards_thorough=16, variant="default", shards_quick=1, fuzz=None, **kw):
     def steps(tier):
         st = dict(run=run, variant=variant, shards=(shards_thorough if tier == "thorough" else shards_quick))
         st.update(kw)
-        return [st]
+        out = [st]
+        if tier == "thorough" and fuzz:
+            st["barrier"] = True
+            out.append(dict(run="^$", variant=variant, fuzz=fuzz, fuzztime=240, journal=kw.get("journal", False)))
+        return out
     return steps
 
 
@@ -23,18 +27,24 @@ PROPS["C02"] = dict(level="exploration", steps=simple("^TestC02"), assumptions=T
 PROPS["C09"] = dict(level="exploration", steps=simple("^(TestC09|TestRefGolden)"), assumptions=TRUST)
 PROPS["C19"] = dict(level="exploration", steps=simple("^TestC19", shards_thorough=1), assumptions=TRUST)
 PROPS["C06"] = dict(level="fault_enumeration", steps=simple("^TestC06"), assumptions=TRUST)
-PROPS["C05"] = dict(level="exploration", steps=simple("^TestC05"), assumptions=TRUST)
+PROPS["C05"] = dict(level="exploration", steps=simple("^TestC05", fuzz="FuzzC05"), assumptions=TRUST)
 
 
-def twin(run, shards_thorough=16):
+def twin(run, shards_thorough=16, fuzz=None):
     def steps(tier):
-        return [dict(run=run, variant="default", shards=(shards_thorough if tier == "thorough" else 1), needs=["noasm"])]
+        st = [dict(run=run, variant="default", shards=(shards_thorough if tier == "thorough" else 1), needs=["noasm"], barrier=True)]
+        if tier == "thorough" and fuzz:
+            st.append(dict(run="^$", variant="default", needs=["noasm"], fuzz=fuzz, fuzztime=FUZZTIME))
+        return st
     return steps
 
 
-PROPS["C03"] = dict(level="exploration", steps=twin("^TestC03"), needs_twin=True, assumptions=TRUST)
+FUZZTIME = 240
+
+
+PROPS["C03"] = dict(level="exploration", steps=twin("^TestC03", fuzz="FuzzC03"), needs_twin=True, assumptions=TRUST)
 PROPS["C04"] = dict(level="exploration", steps=twin("^TestC04"), needs_twin=True, assumptions=TRUST)
-PROPS["C12"] = dict(level="exploration", steps=twin("^TestC12"), needs_twin=True, assumptions=TRUST)
+PROPS["C12"] = dict(level="exploration", steps=twin("^TestC12", fuzz="FuzzC03"), needs_twin=True, assumptions=TRUST)
 PROPS["C10"] = dict(level="exploration", steps=simple("^TestC10"), assumptions=TRUST)
 PROPS["C11"] = dict(level="exploration", steps=simple("^TestC11"), assumptions=TRUST)
 PROPS["C17"] = dict(level="exploration", steps=simple("^TestC17", variant="bubble", shards_quick=4), default_variant="bubble", assumptions=TRUST + ["testing/synctest (Go 1.26.8): 'all goroutines durably blocked' detection is sound for channel operations; goroutines blocked on a mutex or in a syscall are not covered"])
@@ -69,7 +79,7 @@ def c14_steps(tier):
 PROPS["C14"] = dict(level="exploration", steps=c14_steps, replay_variant={"C14/frame": "bubble", "C14/block": "default"}, assumptions=TRUST)
 PROPS["C15"] = dict(level="fault_enumeration", steps=simple("^TestC15", shards_quick=2), assumptions=TRUST)
 PROPS["C18"] = dict(level="exploration", steps=simple("^TestC18"), assumptions=TRUST)
-PROPS["C07"] = dict(level="exploration", steps=simple("^TestC07", variant="bubble", shards_quick=2, journal=True), default_variant="bubble", assumptions=TRUST + [
+PROPS["C07"] = dict(level="exploration", steps=simple("^TestC07", variant="bubble", shards_quick=2, journal=True, fuzz="FuzzC07"), default_variant="bubble", assumptions=TRUST + [
     "testing/synctest (Go 1.26.8) for 'never blocks forever' and leaked goroutines; runtime.MemStats.TotalAlloc as the allocation meter"])
 PROPS["C20"] = dict(level="exploration", steps=simple("^TestC20", shards_quick=4), needs_lz4c=True, assumptions=TRUST + ["/bin/sh and the filesystem of the sandbox (permission bits are compared under umask 0)"])
 
